@@ -255,8 +255,28 @@ def r2_r3_trxcon(L, repo, spec, us2s):
         return kind(st) not in ("CompoundStmt", "IfStmt", "SwitchStmt", "DoStmt", "ForStmt", "WhileStmt") and \
             any(x is il for x in walk(st))
     accepted = {}
-    for Ln in range(1, ext0 + 1):
-        hooks = {"read": lambda e, env, Ln=Ln: Ln}
+    want = {}
+    for bl in sp["burst"]["lengths"]:
+        want[sp["hdr_len"] + bl] = bl
+        want[sp["hdr_len"] + bl + sp["burst"]["legacy_pad"]] = bl
+    from cfront import call_args
+
+    def read_hook(e, env, Ln):
+        # read()/recv() deliver at most the capacity passed as the third argument: a longer datagram is truncated
+        args = call_args(e)
+        cap = fold_env(tu, args[2], env) if len(args) >= 3 else None
+        if cap is None:
+            cap = tu.fold(args[2]) if len(args) >= 3 else None
+        if cap is None:
+            raise AnalysisError("trx_data_rx_cb: receive capacity `%s` does not fold" % (ctext(args[2]) if len(args) >= 3 else "?"))
+        caps.add(cap)
+        return min(Ln, cap)
+    caps = set()
+    top = max(ext0, max(sp["burst"]["lengths"]) + sp["hdr_len"] + sp["burst"]["legacy_pad"] + 8)
+    for Ln in range(1, top + 1):
+        hooks = {"read": lambda e, env, Ln=Ln: read_hook(e, env, Ln), "recv": lambda e, env, Ln=Ln: read_hook(e, env, Ln)}
+        if caps and Ln > max(caps) and Ln not in want:
+            continue        # longer than the receive capacity and not a legal length: outside the property (arrives truncated)
         ci_ = CInterp(tu, hooks=hooks, stop=is_stop)
         env = {"buf[0]": 0}
         try:
@@ -264,13 +284,9 @@ def r2_r3_trxcon(L, repo, spec, us2s):
             accepted[Ln] = None          # returned before building the indication
         except CStop as stp:
             accepted[Ln] = stp.env.get("read_len")
-    want = {}
-    for bl in sp["burst"]["lengths"]:
-        want[sp["hdr_len"] + bl] = bl
-        want[sp["hdr_len"] + bl + sp["burst"]["legacy_pad"]] = bl
     got = {k: v for k, v in accepted.items() if v is not None}
     L.require("C04.R2", FC, "trx_data_rx_cb",
-              "accepted datagram lengths and the burst length handed on (header + {148, 444}, with or without the 2 legacy octets which are stripped); every other length 1..%d is rejected" % ext0,
+              "accepted datagram lengths and the burst length handed on (header + {148, 444}, with or without the 2 legacy octets which are stripped; a datagram longer than the receive capacity arrives truncated); every other length 1..%d is rejected" % top,
               want, got, line=tu.line(il))
     L.extra["c04_lengths_folded"] = ext0
     # soft-bit conversion: fold the loop body for all 256 octet values
